@@ -208,7 +208,9 @@ def check(case: dict[str, Any]) -> list[tuple[str, str]]:
         except Exception:  # noqa: BLE001
             return out
         for rep2, want in ((b"\x7e\x00", "accept"), (bytes([(req[0] + 0x40) & 0xFF]) + req[1:3] + b"\x00", "mismatch"), (bytes([0x7F, req[0], 0x31]), "mismatch")):
-            if rep2[0] in (0x7E,) and want == "mismatch":
+            if rep2[0] in (0x7E, 0x7F) and want == "mismatch" and rep2[:2] != bytes([0x7F, req[0]]):
+                continue  # (old sid + 0x40 happens to be TesterPresent's response id or the negative-response id)
+            if rep2[:2] == bytes([0x7F, req[0]]) and req[0] == 0x3E:
                 continue
             try:
                 parse_pdu(rep2, request)
